@@ -8,6 +8,7 @@ mod mle;
 mod ord;
 mod pmh;
 mod purity;
+mod sigs;
 mod sk;
 mod tracker;
 mod util;
@@ -26,6 +27,8 @@ fn main() {
         "est-cases" => est::cases(rest),
         "pmh-cases" => pmh::cases(rest),
         "sk-cases" => sk::cases(rest),
+        "sig-cases" => sigs::cases(rest),
+        "sig-stress" => sigs::stress(rest),
         "json-cases" => jsonp::cases(rest),
         "purity" => purity::run(rest),
         "ord-cases" => ord::cases(rest),
